@@ -36,7 +36,7 @@ class Exploration:
 
 
 def explore(fn, make_args, cur_n, budget=600, time_limit=120.0, long_bound=LONG_BOUND, base=None, kwargs=None,
-            interp_cls=Interp, force_primary=None, setup=None):
+            interp_cls=Interp, force_primary=None, setup=None, on_path=None):
     """all paths of fn(*make_args(ctx), **kwargs).  fn: Func.  make_args(ctx) -> list of argument values.
     base: a Ctx to clone for every path (nested exploration under an existing path condition)."""
     ex = Exploration()
@@ -44,7 +44,7 @@ def explore(fn, make_args, cur_n, budget=600, time_limit=120.0, long_bound=LONG_
     work = [[]]
     while work:
         dec = work.pop()
-        if len(ex.paths) >= budget:
+        if len(ex.paths) + getattr(ex, 'npaths', 0) >= budget:
             ex.status = 'budget'
             break
         if time.time() - t0 > time_limit:
@@ -80,13 +80,22 @@ def explore(fn, make_args, cur_n, budget=600, time_limit=120.0, long_bound=LONG_
                 continue
             except ReturnSig as r:
                 p = Path(ctx, 'return', value=r.v, interp=it)
-            ex.paths.append(p)
+            if on_path is not None:
+                # streaming: the path (and its solver) is handed over and dropped, not kept
+                ex.npaths = getattr(ex, 'npaths', 0) + 1
+                on_path(p)
+                p = None
+            else:
+                ex.paths.append(p)
         except Restart as r:
             if force_primary is not None and force_primary.key() == r.primary.key():
                 ex.status = 'unsupported: conflicting normalisations of the input'
                 break
+            if on_path is not None and getattr(ex, 'npaths', 0):
+                ex.status = 'unsupported: conflicting normalisations of the input (met after some paths were reported)'
+                break
             ex2 = explore(fn, make_args, cur_n, budget, max(1.0, time_limit - (time.time() - t0)), long_bound, base, kwargs,
-                          interp_cls, r.primary if force_primary is None else force_primary.meet(r.primary), setup)
+                          interp_cls, r.primary if force_primary is None else force_primary.meet(r.primary), setup, on_path)
             ex2.restarts += 1 + ex.restarts
             ex2.secs = time.time() - t0
             return ex2
